@@ -50,12 +50,30 @@ Theorem C19_names_preserved : forall r out,
 Proof. exact names_preserved. Qed.
 Print Assumptions C19_names_preserved.
 
-(* The strict loader accepts what migrate writes: at every level the keys are within the
-   accepted key set of that level with values of the accepted shape, and neither of the
-   loader's two run-time panics is reachable. *)
-Theorem C19_loader_accepts : forall r out, migrate r = MOk out -> load out = LoadOk.
+(* The strict loader accepts what migrate writes - for every v2 file whose regular-expression
+   values compile ([v2_regexes r]: every `include-regex`, `exclude-regex` and `exclude` element of
+   every level; [re_ok] = "Go's regexp package compiles it", a parameter): at every level the keys
+   are within the accepted key set of that level with values of the accepted shape, the loader's
+   run-time panic is not reachable, and every expression the loader compiles is one of those. *)
+Theorem C19_loader_accepts : forall re_ok r out,
+  migrate r = MOk out -> forallb re_ok (v2_regexes r) = true -> load re_ok out = LoadOk.
 Proof. exact loader_accepts. Qed.
 Print Assumptions C19_loader_accepts.
+
+(* The other class: a v2 file with a regex value that does not compile.  The value is still
+   carried over unchanged (C19_key_preserved has no such premise), and the loader - which
+   validates every configured expression - rejects the result (never a panic, never a
+   silent acceptance). *)
+Theorem C19_invalid_regex_rejected : forall re_ok r out,
+  migrate r = MOk out -> forallb re_ok (v2_regexes r) = false -> load re_ok out = LoadErr.
+Proof. exact invalid_regex_rejected. Qed.
+Print Assumptions C19_invalid_regex_rejected.
+
+(* what the loader compiles are exactly the v2 file's regex values, in order *)
+Theorem C19_loader_compiles_the_v2_regexes : forall r out,
+  migrate r = MOk out -> tree_regexes out = v2_regexes r.
+Proof. intros r out Hm. apply migrate_ok in Hm as [-> _]. apply tree_regexes_mig. Qed.
+Print Assumptions C19_loader_compiles_the_v2_regexes.
 
 (* Every decodable v2 tree (mapping keys unique) is migrated; the only other outcome of the
    model is the decoder's error.  (No panic outcome exists in [mresult].) *)
@@ -222,7 +240,14 @@ Proof. vm_compute. reflexivity. Qed.
    ([load_with true], the tree before fixes/c19-anchors-default.diff) this very output of migrate
    makes the loader panic, so C19_loader_accepts would be false; with the non-nil default it loads. *)
 Example C19_nil_anchors_default_would_panic :
-  load_with true (mig_root example_v2) = LoadPanic /\ load (mig_root example_v2) = LoadOk.
+  load_with true (fun _ => true) (mig_root example_v2) = LoadPanic /\
+  load (fun _ => true) (mig_root example_v2) = LoadOk.
+Proof. vm_compute. split; reflexivity. Qed.
+
+(* the invalid-regex class is inhabited: `exclude: [e1, e2]` of the example, with e2 not compiling *)
+Example C19_invalid_regex_example :
+  v2_regexes example_v2 = [B "e1"; B "e2"] /\
+  load (fun s => negb (seqb s (B "e2"))) (mig_root example_v2) = LoadErr.
 Proof. vm_compute. split; reflexivity. Qed.
 
 (* the guard is satisfiable by a non-trivial tree *)
